@@ -88,6 +88,8 @@ def run(ctx):
         # keep every same-type pair for the list predicates (embedded NUL, empty, longer needles), sample the rest
         keep = [c for c in cases if len(c[0]) == 2 and c[1] in ("?find", "?starts", "?ends", "add") and
                 c[0][0][0] == c[0][1][0] and c[0][0][0] in '"[' and rng.random() < (1.0 if ctx.tier != "quick" else 0.45)]
+        # … and every pair of integers for the arithmetic words (boundary values meet zero in both representations)
+        keep += [c for c in cases if len(c[0]) == 2 and c[1] in ("add", "sub", "mul", "div", "mod") and c[0][0] in POOL["c"] and c[0][1] in POOL["c"]]
         rest = rng.sample(cases, max(0, n - len(keep)))
         cases = keep + rest
     progs = []
